@@ -478,6 +478,8 @@ class MessageManager(interfaces.TokenInterface, interfaces.MessageManager):
             )
             message.mid = None
 
+        piggybacked_on = None
+
         if message.code.is_response():
             no_response = (message.opt.no_response or 0) & (
                 1 << message.code.class_ - 1
@@ -498,6 +500,7 @@ class MessageManager(interfaces.TokenInterface, interfaces.MessageManager):
                 else:
                     message.mtype = ACK
                     message.mid = mid
+                    piggybacked_on = mid
             else:
                 if no_response:
                     self.log.debug(
@@ -552,7 +555,22 @@ class MessageManager(interfaces.TokenInterface, interfaces.MessageManager):
             self.log.debug("Message to %s put into backlog", message.remote)
             self._backlogs[message.remote].append((message, messageerror_monitor))
         else:
-            self._send_initially(message, messageerror_monitor)
+            try:
+                self._send_initially(message, messageerror_monitor)
+            except Exception:
+                if piggybacked_on is not None:
+                    # The response that was to acknowledge the request did
+                    # not make it to the transport (typically because it
+                    # can not be serialized), and the pending empty ACK was
+                    # given up for it. The request is acknowledged now;
+                    # whatever is sent in the response's place (a 5.00,
+                    # typically) is a separate response.
+                    self._send_empty_ack(
+                        message.remote,
+                        piggybacked_on,
+                        reason="piggybacked response could not be sent",
+                    )
+                raise
 
     def _send_initially(self, message, messageerror_monitor=None):
         """Put the message on the wire for the first time, starting retransmission timeouts"""
